@@ -646,3 +646,181 @@ if __name__ == "__main__":
     with open(REF_PATH, "w") as fh:
         json.dump(t, fh, indent=0, sort_keys=True)
     print("alpha_ref.json: %d entries" % len(t))
+
+
+# ---------------------------------------------------------------------------------------------------------------------
+# un-extraction of helpers: a private function / method that the reference tree does not have, whose body runs straight
+# to a single final `return` (or to its end), is spliced back into the statements that call it.  The result is the same
+# program (parameters are bound first, the helper's locals get fresh names), and the caller reads as it did before the
+# helper was extracted - which is what the rules were written against.
+def _simple_arg(e):
+    return isinstance(e, (ast.Name, ast.Constant)) or (isinstance(e, ast.Attribute) and _simple_arg(e.value))
+
+
+def _helper_ok(fn):
+    a = fn.args
+    if a.vararg or a.kwarg or a.posonlyargs:
+        return False
+    decos = [ast.unparse(d) for d in fn.decorator_list]
+    if any(d not in ("staticmethod",) for d in decos):
+        return False
+    body = [s for i, s in enumerate(fn.body) if not (i == 0 and isinstance(s, ast.Expr) and isinstance(s.value, ast.Constant) and isinstance(s.value.value, str))]
+    if not body:
+        return False
+    for i, st in enumerate(body):
+        for x in ast.walk(st):
+            if isinstance(x, (ast.Yield, ast.YieldFrom, ast.Await, ast.Global, ast.Nonlocal, ast.FunctionDef, ast.AsyncFunctionDef, ast.ClassDef, ast.Lambda)):
+                return False
+            if isinstance(x, ast.Return) and not (x is st and i == len(body) - 1):
+                return False
+            if isinstance(x, ast.Call) and isinstance(x.func, ast.Name) and x.func.id == fn.name:
+                return False
+            if isinstance(x, ast.Call) and isinstance(x.func, ast.Attribute) and x.func.attr == fn.name:
+                return False
+    return True
+
+
+def inline_new_helpers(tree, modname):
+    if os.environ.get("PDSA_NO_ALPHA") or os.environ.get("PDSA_NO_UNEXTRACT"):
+        return {}
+    ref = _ref()
+    if not ref:
+        return {}
+    funcs = functions_of(tree, modname)
+    helpers = {}  # (class qualname or None, name) -> node
+    cls_of = {}
+    for cq, cnode in classes_of(tree, modname):
+        for st in cnode.body:
+            if isinstance(st, (ast.FunctionDef,)):
+                cls_of[id(st)] = (cq, cnode)
+    for q, fn in funcs:
+        if isinstance(fn, ast.AsyncFunctionDef) or ".<locals>." in q:
+            continue
+        nm = fn.name
+        if not nm.startswith("_") or (nm.startswith("__") and nm.endswith("__")) or q in ref:
+            continue
+        if not _helper_ok(fn):
+            continue
+        owner = cls_of.get(id(fn))
+        helpers[(owner[0] if owner else None, nm)] = (fn, owner)
+    if not helpers:
+        return {}
+    applied = {}
+    counter = [0]
+
+    def splice(caller_q, caller, owner_q, self_name):
+        changed = True
+        rounds = 0
+        while changed and rounds < 6:
+            changed = False
+            rounds += 1
+            names_in_caller = {x.id for x in ast.walk(caller) if isinstance(x, ast.Name)} | {a.arg for a in ast.walk(caller.args) if isinstance(a, ast.arg)}
+            for blk in _blocks(caller):
+                for i, st in enumerate(blk):
+                    if not isinstance(st, (ast.Assign, ast.AugAssign, ast.AnnAssign, ast.Return, ast.Expr)):
+                        continue
+                    # the call must be evaluated first in the statement: the statement's value itself
+                    val = st.value
+                    if not isinstance(val, ast.Call):
+                        continue
+                    key = None
+                    if isinstance(val.func, ast.Name):
+                        key = (None, val.func.id)
+                    elif isinstance(val.func, ast.Attribute) and isinstance(val.func.value, ast.Name) and owner_q is not None:
+                        if val.func.value.id == self_name or val.func.value.id == owner_q.rsplit(".", 1)[-1]:
+                            key = (owner_q, val.func.attr)
+                    if key not in helpers:
+                        continue
+                    hfn, howner = helpers[key]
+                    if hfn is caller or any(isinstance(a, ast.Starred) for a in val.args) or any(k.arg is None for k in val.keywords):
+                        continue
+                    static = any(ast.unparse(d) == "staticmethod" for d in hfn.decorator_list)
+                    params = [a.arg for a in hfn.args.args] + [a.arg for a in hfn.args.kwonlyargs]
+                    bind = {}
+                    pos = list(params)
+                    if howner is not None and not static:
+                        if not pos or not isinstance(val.func, ast.Attribute) or val.func.value.id != self_name:
+                            continue
+                        bind[pos.pop(0)] = ast.Name(id=self_name, ctx=ast.Load())
+                    if len(val.args) > len(pos):
+                        continue
+                    for p_, a_ in zip(pos, val.args):
+                        bind[p_] = a_
+                    okk = True
+                    for k in val.keywords:
+                        if k.arg not in params or k.arg in bind:
+                            okk = False
+                        bind[k.arg] = k.value
+                    if not okk:
+                        continue
+                    # defaults
+                    dpos = hfn.args.args[len(hfn.args.args) - len(hfn.args.defaults):] if hfn.args.defaults else []
+                    for a_, d_ in zip(dpos, hfn.args.defaults):
+                        bind.setdefault(a_.arg, d_)
+                    for a_, d_ in zip(hfn.args.kwonlyargs, hfn.args.kw_defaults):
+                        if d_ is not None:
+                            bind.setdefault(a_.arg, d_)
+                    if set(params) - set(bind):
+                        continue
+                    counter[0] += 1
+                    pre = []
+                    mapping = {}
+                    stored_params = {x.id for x in ast.walk(hfn) if isinstance(x, ast.Name) and isinstance(x.ctx, ast.Store)} & set(params)
+                    for p_ in params:
+                        a_ = bind[p_]
+                        if _simple_arg(a_) and p_ not in stored_params:
+                            mapping[p_] = a_
+                        else:
+                            tmp = "_%s_%d" % (p_, counter[0]) if (p_ in names_in_caller) else p_
+                            pre.append(ast.Assign(targets=[ast.Name(id=tmp, ctx=ast.Store())], value=a_))
+                            mapping[p_] = ast.Name(id=tmp, ctx=ast.Load())
+                            names_in_caller.add(tmp)
+                    body = [s for j, s in enumerate(hfn.body) if not (j == 0 and isinstance(s, ast.Expr) and isinstance(s.value, ast.Constant) and isinstance(s.value.value, str))]
+                    import copy
+                    body = copy.deepcopy(body)
+                    hlocals = {x.id for s in body for x in ast.walk(s) if isinstance(x, ast.Name) and isinstance(x.ctx, ast.Store)} - set(params)
+                    lmap = {}
+                    for l_ in hlocals:
+                        lmap[l_] = l_ if l_ not in names_in_caller else "%s_h%d" % (l_, counter[0])
+                        names_in_caller.add(lmap[l_])
+
+                    class Sub(ast.NodeTransformer):
+                        def visit_Name(self, node):
+                            if node.id in mapping and isinstance(node.ctx, ast.Load):
+                                return copy.deepcopy(mapping[node.id])
+                            if node.id in mapping and isinstance(mapping[node.id], ast.Name):
+                                return ast.Name(id=mapping[node.id].id, ctx=node.ctx)
+                            if node.id in lmap:
+                                return ast.Name(id=lmap[node.id], ctx=node.ctx)
+                            return node
+                    body = [Sub().visit(s) for s in body]
+                    ret = None
+                    if body and isinstance(body[-1], ast.Return):
+                        ret = body[-1].value
+                        body = body[:-1]
+                    new_stmts = pre + body
+                    if isinstance(st, ast.Expr):
+                        pass  # a bare call: nothing remains of the statement
+                    else:
+                        st.value = ret if ret is not None else ast.Constant(value=None)
+                        new_stmts.append(st)
+                    for s_ in new_stmts:
+                        ast.copy_location(s_, st)
+                    blk[i:i + 1] = new_stmts
+                    applied.setdefault(caller_q, []).append(hfn.name)
+                    changed = True
+                    break
+                if changed:
+                    break
+
+    for q, fn in funcs:
+        if isinstance(fn, ast.AsyncFunctionDef):
+            continue
+        owner = cls_of.get(id(fn))
+        self_name = None
+        if owner is not None and fn.args.args and not any(ast.unparse(d) == "staticmethod" for d in fn.decorator_list):
+            self_name = fn.args.args[0].arg
+        splice(q, fn, owner[0] if owner else None, self_name)
+    if applied:
+        ast.fix_missing_locations(tree)
+    return applied
